@@ -113,7 +113,7 @@ func csExplore(c *runCtx, name string, bound int, deadline time.Time, classify c
 
 				return
 			}
-			cmd := exec.Command(os.Args[0], "-test.run", "^TestVerifCSWorker$", "-test.timeout", "0") //nolint:gosec
+			cmd := exec.Command(os.Args[0], childArgs("-test.run", "^TestVerifCSWorker$", "-test.timeout", "0")...) //nolint:gosec
 			cmd.Env = append(os.Environ(), "VERIF_CS_SCEN="+name, "VERIF_CS_BOUND="+strconv.Itoa(bound), fmt.Sprintf("VERIF_CS_SHARD=%d/%d", sh, shards),
 				"VERIF_CHECK=", "VERIF_PROP="+c.prop, "GOMAXPROCS=2", "VERIF_CS_DEADLINE="+strconv.FormatInt(deadline.Unix(), 10))
 			cmd.ExtraFiles = []*os.File{pw}
